@@ -1,6 +1,7 @@
 package props
 
 import (
+	"bytes"
 	"encoding/binary"
 	"encoding/json"
 	"fmt"
@@ -28,7 +29,7 @@ func init() {
 		Rule: "E-SEQ: breadth-first search over file-management histories (rename, move, delete, create folder, alias, set comment on files with/without forks, a Mac-Roman name, folders, next to ignored entries and a partial upload) replayed through the real connection loop; " +
 			"after every transition the real tree is compared with a reference namespace model (fork side-files and partial data travel or vanish with their file), every folder's listing with the model's visible entries, and every listed complete entry is addressed by its listed name " +
 			"for get-info and download, whose size/type must agree with the listing and the bytes on disk; states deduplicated by the canonical real tree",
-		Assumptions: []string{"renames/moves only onto unused names; whether a folder's own comment side-file follows a folder rename is not specified and not compared", "ignore patterns ^\\. and ^@ (the shipped defaults)"},
+		Assumptions:    []string{"renames/moves only onto unused names; whether a folder's own comment side-file follows a folder rename is not specified and not compared", "ignore patterns ^\\. and ^@ (the shipped defaults)"},
 		Run:            runC11,
 		Replay:         replayC11,
 		MinOutcomes:    10,
@@ -48,7 +49,10 @@ func macRoman(s string) []byte {
 }
 
 func c11Files(root string) {
-	w := func(p string, b []byte) { _ = os.MkdirAll(filepath.Dir(filepath.Join(root, p)), 0755); _ = os.WriteFile(filepath.Join(root, p), b, 0644) }
+	w := func(p string, b []byte) {
+		_ = os.MkdirAll(filepath.Dir(filepath.Join(root, p)), 0755)
+		_ = os.WriteFile(filepath.Join(root, p), b, 0644)
+	}
 	w("a.txt", []byte("0123456789"))
 	w("b c", []byte("abc"))
 	w("été.txt", []byte("eteee"))
@@ -62,7 +66,7 @@ func c11Files(root string) {
 	w("p.bin.incomplete", []byte("partia"))
 	w(".info_p.bin", ref.NewInfoFork("p.bin", "BINA", "hDmp", "partial").Encode()) // the partial upload's stored information fork
 	w("d/inner.txt", []byte("in"))
-	w("dé/in2.txt", []byte("in2")) // a folder whose listed name is not ASCII: everything below it is addressed through Mac Roman path items
+	w("dé/in2.txt", []byte("in2"))         // a folder whose listed name is not ASCII: everything below it is addressed through Mac Roman path items
 	w("other/q.sit/keep.txt", []byte("k")) // a folder that has the name of a file: moving that file here must fail and change nothing
 	_ = os.MkdirAll(filepath.Join(root, "e"), 0755)
 }
@@ -71,7 +75,7 @@ func c11Files(root string) {
 type c11Model struct {
 	ent map[string]string // "<dir>", "-> target", or file content ("\x00info" for info forks: content opaque)
 	// folder comment side-files that may or may not have followed a folder rename
-	loose map[string]bool
+	loose    map[string]bool
 	comments map[string]string // entry path -> comment set through the protocol
 }
 
@@ -312,6 +316,19 @@ func (x *c11World) apply(op string) bool {
 		}
 		if r != nil && r.Err == 0 {
 			x.fail("refused-operation/acknowledged-although-the-name-is-shown-for-a-partial-upload", fmt.Sprintf("%s: %v", op, r))
+		}
+	case "renamelong":
+		// a new name that is fine on the wire (200 Mac Roman bytes) and too long for the file system once stored (400
+		// bytes): the rename cannot be carried out, so it is refused and nothing changes
+		src := p[1]
+		if !m.exists(src) || strings.HasPrefix(m.ent[src], "->") {
+			return false
+		}
+		r := x.req(ref.Tx{Type: ref.TSetFileInfo, Fields: append(pathFields(dirOf(src)), ref.F(ref.FFileName, macRoman(filepath.Base(src))), ref.F(ref.FFileNewName, bytes.Repeat([]byte{0x8e}, 200)))})
+		if r == nil {
+			x.fail("rename/not-answered", op)
+		} else if r.Err == 0 {
+			x.fail("refused-operation/acknowledged-although-nothing-was-renamed", fmt.Sprintf("%s: %v", op, r))
 		}
 	case "renamefailc":
 		// a set-file-info request with a comment and a new name that is taken: refused, and nothing of it is carried out
@@ -594,7 +611,7 @@ func c11Alphabet() []string {
 	a = append(a, "del|p.bin", "mkdir|dé/new", "mkdir|dé/in2.txt", "del|dé/in2.txt", "rename|dé/in2.txt|r2.txt", "move|a.txt|dé", "move|dé/in2.txt|e", "comment|dé/in2.txt", "alias|a.txt|dé", "rename|dé|dd", "move|dé|e", "del|dé", "mkdir|zé/sub")
 	a = append(a, "mkdir|new", "mkdir|a.txt", "mkdir|d", "mkdir|d/new", "mkdir|zé", "alias|a.txt|e", "alias|d|e", "alias|q.sit|d",
 		"rename|n1.txt|a.zip", "rename|a.txt|a.zip", "rename|i.dat|i.txt",
-		"movefail|q.sit|other", "ontopartial|rename|i.dat|p.bin", "ontopartial|mkdir||p.bin", "rename|e/a.txt|p.bin", "ontopartial|move|e/p.bin|p.bin", "renamefailc|a.txt|q.sit", "renamefailc|d|e", "renamefail|q.sit|d", "renamefail|a.txt|e", "renamefail|i.dat|d", "uncomment|q.sit", "uncomment|a.txt", "uncomment|d", "del|n1.txt", "move|n1.txt|e", "comment|n1.txt", "del|dd", "rename|dd|d", "mkdir|dd", "comment|e/a.txt", "del|e/a.txt", "rename|e/a.txt|r.txt")
+		"movefail|q.sit|other", "renamelong|d", "renamelong|a.txt", "ontopartial|rename|i.dat|p.bin", "ontopartial|mkdir||p.bin", "rename|e/a.txt|p.bin", "ontopartial|move|e/p.bin|p.bin", "renamefailc|a.txt|q.sit", "renamefailc|d|e", "renamefail|q.sit|d", "renamefail|a.txt|e", "renamefail|i.dat|d", "uncomment|q.sit", "uncomment|a.txt", "uncomment|d", "del|n1.txt", "move|n1.txt|e", "comment|n1.txt", "del|dd", "rename|dd|d", "mkdir|dd", "comment|e/a.txt", "del|e/a.txt", "rename|e/a.txt|r.txt")
 	return a
 }
 
